@@ -1077,6 +1077,41 @@ theorem Disc.opOK {K : Bytes → Prop} {s : IState} {op : IOp} (hd : Disc s op) 
   | indexQC h bh => exact IdxKey.qcHeight h hd
   | _ => trivial
 
+/-! `GetBlocks` only reads the cache: at most touches -/
+
+theorem getBlockForPage_lookup (c : Cache) (v : IView) (h : Nat) (t : Bool) (k : Bytes) :
+    (getBlockForPage .none c v h t).2.lookup k = c.lookup k := by
+  unfold getBlockForPage
+  simp only
+  split
+  · exact Cache.lookup_touch _ _ _
+  · rfl
+
+theorem pageReads_lookup (v : IView) (hs : List Nat) (k : Bytes) : ∀ (acc : List BlockRes × Cache),
+    (hs.foldl (fun (acc : List BlockRes × Cache) h =>
+      let r := getBlockForPage .none acc.2 v h true
+      (acc.1 ++ [r.1], r.2)) acc).2.lookup k = acc.2.lookup k := by
+  induction hs with
+  | nil => intro acc; rfl
+  | cons h hs ih =>
+    intro acc
+    simp only [List.foldl_cons]
+    rw [ih]
+    exact getBlockForPage_lookup _ _ _ _ _
+
+theorem getBlocks_lookup (c : Cache) (v : IView) (pn pp : Nat) (k : Bytes) :
+    (getBlocks .none c v pn pp).2.lookup k = c.lookup k := by
+  unfold getBlocks
+  simp only
+  split
+  · simp only
+    split
+    · split
+      · exact pageReads_lookup _ _ _ _
+      · rw [getBlockForPage_lookup]; exact pageReads_lookup _ _ _ _
+    · exact pageReads_lookup _ _ _ _
+  · rfl
+
 /-- **every disciplined operation preserves the invariant** -/
 theorem CInv.apply {K : Bytes → Prop} (hK : WFKeys K) {s : IState} {m : VMap} {pb : Option (Bytes × List Bytes)}
     (hi : CInv K s m pb) (op : IOp) (hd : Disc s op) (hs : ∀ o, op = .store o → OpOK K o)
@@ -1123,6 +1158,19 @@ theorem CInv.apply {K : Bytes → Prop} (hK : WFKeys K) {s : IState} {m : VMap} 
         rw [show (s.apply .byHashKey (.getBlock vw h true)).cache = (getBlockHeaderByHeight .byHashKey s.cache (s.view vw) h).2 from rfl,
           hlook] at hb'
         exact hb'
+  | getBlocks vw pn pp =>
+    -- a page query never adds to the cache: at most touches
+    have hlook : ∀ k, (s.apply .byHashKey (.getBlocks vw pn pp)).cache.lookup k = s.cache.lookup k :=
+      fun k => getBlocks_lookup s.cache (s.view vw) pn pp k
+    refine ⟨m', pb, hinv', hi.disc, ?_, ⟨hi.pend.sorted, hi.pend.noBlock, ?_⟩⟩
+    · intro H b c hl hlk
+      rw [hlook] at hlk
+      exact hi.cache H b c hl hlk
+    · intro H txs hpb
+      obtain ⟨a, b, c, d, e, f, g, h1, h2, h3⟩ := hi.pend.block H txs hpb
+      refine ⟨a, b, c, d, e, f, g, h1, h2, fun b' hb' => h3 b' ?_⟩
+      rw [hlook] at hb'
+      exact hb'
   | getQC vw h =>
     obtain ⟨hh, hv⟩ := hd
     obtain ⟨hc', hp'⟩ := hi.read (by omega) vw h hh hv
@@ -1354,6 +1402,7 @@ theorem IState.apply_sorted_idxOv (mode : CacheKeying) (s : IState) (op : IOp) (
   | purgeCache => exact h
   | getBlock vw hh hdr => exact h
   | getQC vw hh => exact h
+  | getBlocks vw pn pp => exact h
 
 theorem runIOps_sorted_idxOv (mode : CacheKeying) (ops : List IOp) : ∀ (s : IState), SSorted s.idxOv →
     SSorted (runIOps mode s ops).idxOv := by
